@@ -3,16 +3,17 @@ C11 helper lemmas: what a block that is computed and never committed leaves behi
 -/
 import NeoModel.Model.MptRc
 import NeoModel.Proofs.MptRcLazy
+import NeoModel.Proofs.MptRcRefine
 namespace NeoModel.MptRc
 open NeoModel.Mpt
 
 /-- what a dropped block leaves behind, exactly: the module goes on as if the block HAD been
 committed (same live trie, same refcount map as after that commit) — only the node store, the root
 records and the retained heights are those from before the block. -/
-theorem dropBlock_eq_commit_minus_store (H : Bytes → Bytes) (s : St) (idx : Nat) (ops : List SubOp) :
-    dropBlock H s idx ops =
+theorem dropBlockNoReload_eq_commit_minus_store (H : Bytes → Bytes) (s : St) (idx : Nat) (ops : List SubOp) :
+    dropBlockNoReload H s idx ops =
       (commit H s idx ops).map fun c => { c with store := s.store, roots := s.roots, hist := s.hist } := by
-  unfold dropBlock commit
+  unfold dropBlockNoReload commit
   cases compute H s idx ops with
   | none => rfl
   | some r => obtain ⟨t', m', st'⟩ := r; rfl
@@ -24,7 +25,7 @@ events touched with a non-zero net: there the real record still carries the old 
 phantom one the dropped block's. Every later oracle failure is a consequence of that difference. -/
 theorem drop_phantom (H : Bytes → Bytes) (mode : Mode) (hrc : mode.rc = true) (top : Option Nat) (s : St)
     (idx : Nat) (ops : List SubOp) (hinv : Inv H mode top s) (hh : ∀ h, top = some h → h < idx) :
-    ∃ c s', commit H s idx ops = some c ∧ dropBlock H s idx ops = some s' ∧
+    ∃ c s', commit H s idx ops = some c ∧ dropBlockNoReload H s idx ops = some s' ∧
       Inv H mode (some idx) c ∧
       s'.root = c.root ∧ s'.rc = c.rc ∧ s'.store = s.store ∧ s'.roots = s.roots ∧ s'.hist = s.hist ∧
       c.root = trieAfter s.root ops ∧
@@ -33,11 +34,119 @@ theorem drop_phantom (H : Bytes → Bytes) (mode : Mode) (hrc : mode.rc = true) 
       (∀ k e, mget s'.rc k = some e → e.delta = 0 ∧ (e.initial ≠ 0 → e.initial = occH H c.root k)) := by
   obtain ⟨c, hc, hinv', hroot, _, _, _, htag⟩ := commit_inv H mode hrc top s idx ops hinv hh
   refine ⟨c, { c with store := s.store, roots := s.roots, hist := s.hist }, hc,
-    by rw [dropBlock_eq_commit_minus_store, hc]; rfl, hinv', rfl, rfl, rfl, rfl, rfl, hroot, ?_, ?_⟩
+    by rw [dropBlockNoReload_eq_commit_minus_store, hc]; rfl, hinv', rfl, rfl, rfl, rfl, rfl, hroot, ?_, ?_⟩
   · intro k; rw [htag k, hroot]
   · intro k e he
     refine ⟨hinv'.good.zero k e he, fun hne => ?_⟩
     have := hinv'.good.cache k e he hne
     rw [← this]; exact hinv'.exact.count k
+
+/-! ### the rule of the code now: AddMPTBatch + DropMPTBatch -/
+
+theorem twin_refl {H : Bytes → Bytes} {mode : Mode} {top : Option Nat} {s : St} (h : Inv H mode top s) :
+    Twin H mode top s s := ⟨h, h, rfl, rfl, rfl, fun _ => rfl⟩
+
+/-- the two post-states of one block run from twin states are twins. -/
+theorem twin_after_block {H : Bytes → Bytes} {mode : Mode} {top : Option Nat} {s s2 s1 s3 : St} {idx : Nat}
+    {bops : List SubOp} (ht : Twin H mode top s s2)
+    (hinv1 : Inv H mode (some idx) s1) (hroot1 : s1.root = trieAfter s.root bops)
+    (hhist1 : s1.hist = (idx, trieAfter s.root bops) :: s.hist) (hgc1 : s1.gcAt = s.gcAt)
+    (htag1 : ∀ k, ctag (sget s1.store k) = if net (hP H k) (blockEvs s.root bops) = 0 then ctag (sget s.store k)
+      else tagAfter mode idx (occH H (trieAfter s.root bops) k))
+    (hinv3 : Inv H mode (some idx) s3) (hroot3 : s3.root = trieAfter s2.root bops)
+    (hhist3 : s3.hist = (idx, trieAfter s2.root bops) :: s2.hist) (hgc3 : s3.gcAt = s2.gcAt)
+    (htag3 : ∀ k, ctag (sget s3.store k) = if net (hP H k) (blockEvs s2.root bops) = 0 then ctag (sget s2.store k)
+      else tagAfter mode idx (occH H (trieAfter s2.root bops) k)) :
+    Twin H mode (some idx) s1 s3 where
+  inv1 := hinv1
+  inv2 := hinv3
+  root := by rw [hroot1, hroot3, ht.root]
+  hist := by rw [hhist1, hhist3, ht.root, ht.hist]
+  gcAt := by rw [hgc1, hgc3, ht.gcAt]
+  tags := fun k => by rw [htag1 k, htag3 k, ← ht.root, ht.tags k]
+
+/-- two states that differ only in refcount-map caches and record bytes stay so under the SAME
+history (blocks with the same loads, collections, restarts, jumps). -/
+theorem twin_run_same (H : Bytes → Bytes) (mode : Mode) (hrc : mode.rc = true) (ops : List Op) :
+    ∀ (top : Option Nat) (s s2 : St), Twin H mode top s s2 → Heights top ops →
+      ∃ r r2 top', runOps H s ops = some r ∧ runOps H s2 ops = some r2 ∧ Twin H mode top' r r2 := by
+  induction ops with
+  | nil => intro top s s2 ht _; exact ⟨s, s2, top, rfl, rfl, ht⟩
+  | cons o r ih =>
+    intro top s s2 ht hh
+    cases o with
+    | block idx bops =>
+      simp only [Heights] at hh
+      obtain ⟨s1, hc1, hinv1, hroot1, hhist1, hgc1, _, htag1⟩ := commit_inv H mode hrc top s idx bops ht.inv1 hh.1
+      obtain ⟨s3, hc3, hinv3, hroot3, hhist3, hgc3, _, htag3⟩ := commit_inv H mode hrc top s2 idx bops ht.inv2 hh.1
+      obtain ⟨a, b, top', hr1, hr2, htw'⟩ := ih (some idx) s1 s3
+        (twin_after_block ht hinv1 hroot1 hhist1 hgc1 htag1 hinv3 hroot3 hhist3 hgc3 htag3) hh.2
+      exact ⟨a, b, top', by simp only [runOps, stepOp, hc1, hr1], by simp only [runOps, stepOp, hc3, hr2], htw'⟩
+    | blockL idx bops ld =>
+      simp only [Heights] at hh
+      obtain ⟨s1, hc1, hinv1, hroot1, hhist1, hgc1, _, htag1⟩ := commitL_inv H mode hrc top s idx bops ld ht.inv1 hh.1
+      obtain ⟨s3, hc3, hinv3, hroot3, hhist3, hgc3, _, htag3⟩ := commitL_inv H mode hrc top s2 idx bops ld ht.inv2 hh.1
+      obtain ⟨a, b, top', hr1, hr2, htw'⟩ := ih (some idx) s1 s3
+        (twin_after_block ht hinv1 hroot1 hhist1 hgc1 htag1 hinv3 hroot3 hhist3 hgc3 htag3) hh.2
+      exact ⟨a, b, top', by simp only [runOps, stepOp, hc1, hr1], by simp only [runOps, stepOp, hc3, hr2], htw'⟩
+    | gc g =>
+      simp only [Heights] at hh
+      have htw : Twin H mode top (gcSt s g) (gcSt s2 g) := {
+        inv1 := gc_inv H mode top s g ht.inv1
+        inv2 := gc_inv H mode top s2 g ht.inv2
+        root := ht.root
+        hist := ht.hist
+        gcAt := by show max s.gcAt g = max s2.gcAt g; rw [ht.gcAt]
+        tags := fun k => by
+          show ctag (sget (gc g s.store) k) = ctag (sget (gc g s2.store) k)
+          rw [ctag_gc g _ ht.inv1.nd, ctag_gc g _ ht.inv2.nd, ht.tags k] }
+      obtain ⟨a, b, top', hr1, hr2, htw'⟩ := ih top _ _ htw hh
+      exact ⟨a, b, top', by simp only [runOps, stepOp, hr1], by simp only [runOps, stepOp, hr2], htw'⟩
+    | reset =>
+      simp only [Heights] at hh
+      have htw : Twin H mode top (reset s) (reset s2) :=
+        ⟨reset_inv H mode top s ht.inv1, reset_inv H mode top s2 ht.inv2, ht.root, ht.hist, ht.gcAt, ht.tags⟩
+      obtain ⟨a, b, top', hr1, hr2, htw'⟩ := ih top _ _ htw hh
+      exact ⟨a, b, top', by simp only [runOps, stepOp, hr1], by simp only [runOps, stepOp, hr2], htw'⟩
+    | jump idx t =>
+      simp only [Heights] at hh
+      have hm : s.mode = s2.mode := by rw [ht.inv1.mode_eq, ht.inv2.mode_eq]
+      have htw : Twin H mode (some idx) (jumpSt H s idx t) (jumpSt H s2 idx t) := {
+        inv1 := jump_inv H mode hrc top s ht.inv1 idx t
+        inv2 := jump_inv H mode hrc top s2 ht.inv2 idx t
+        root := rfl
+        hist := rfl
+        gcAt := ht.gcAt
+        tags := fun k => by show ctag (sget (restoreAll H s.mode [] t) k) = ctag (sget (restoreAll H s2.mode [] t) k); rw [hm] }
+      obtain ⟨a, b, top', hr1, hr2, htw'⟩ := ih (some idx) _ _ htw hh
+      exact ⟨a, b, top', by simp only [runOps, stepOp, hr1], by simp only [runOps, stepOp, hr2], htw'⟩
+
+/-- a dropped block (AddMPTBatch + DropMPTBatch) leaves no trace: it never panics on a state reached
+by a history; the store, the root records, the retained heights, the live trie and the collection
+index are those from before; and ANY later history runs from the state after the drop exactly as from
+the state before it: same tries at every height, same collection index, and under every hash a
+record with the same active flag and count / deactivation height — both final states satisfying the
+history invariant (so reads of every retained root return that trie's contents in both). -/
+theorem drop_no_trace (H : Bytes → Bytes) (mode : Mode) (hrc : mode.rc = true) (top : Option Nat) (s : St)
+    (hinv : Inv H mode top s) (idx : Nat) (ops : List SubOp) (hh : ∀ h, top = some h → h < idx) :
+    ∃ s', dropBlock H s idx ops = some s' ∧
+      s'.store = s.store ∧ s'.roots = s.roots ∧ s'.hist = s.hist ∧ s'.root = s.root ∧ s'.gcAt = s.gcAt ∧
+      s'.rc = [] ∧
+      ∀ later, Heights top later →
+        ∃ r r' top', runOps H s' later = some r ∧ runOps H s later = some r' ∧
+          Inv H mode top' r ∧ Inv H mode top' r' ∧ r.root = r'.root ∧ r.hist = r'.hist ∧ r.gcAt = r'.gcAt ∧
+          ∀ k, ctag (sget r.store k) = ctag (sget r'.store k) := by
+  obtain ⟨c, hc, _⟩ := commit_inv H mode hrc top s idx ops hinv hh
+  have hcomp : ∃ x, compute H s idx ops = some x := by
+    simp only [commit] at hc
+    cases h : compute H s idx ops with
+    | none => simp [h] at hc
+    | some x => exact ⟨x, rfl⟩
+  obtain ⟨x, hx⟩ := hcomp
+  refine ⟨reset s, by simp only [dropBlock, hx], rfl, rfl, rfl, rfl, rfl, rfl, fun later hl => ?_⟩
+  have htw : Twin H mode top (reset s) s :=
+    ⟨reset_inv H mode top s hinv, hinv, rfl, rfl, rfl, fun _ => rfl⟩
+  obtain ⟨r, r', top', h1, h2, t⟩ := twin_run_same H mode hrc later top _ _ htw hl
+  exact ⟨r, r', top', h1, h2, t.inv1, t.inv2, t.root, t.hist, t.gcAt, t.tags⟩
 
 end NeoModel.MptRc
